@@ -30,6 +30,9 @@ type kase struct {
 	// type), so they return early with that error and never reach their final flush; whatever they
 	// leave in the Filter value must not be seen by the call for Query.
 	BeforeFails bool `json:"before_fails,omitempty"`
+	// Near > 0 (long queries over a background that shares no k-mer with the target): the oracle looks
+	// only at query windows that start within [Near-1-N, Near-1+N] - elsewhere there is no epsilon-match
+	Near int `json:"near,omitempty"`
 }
 
 type otherElem int
@@ -121,6 +124,9 @@ func uncovered(k kase, hits []filter.Hit) (t0, q0 int, matches int, ok bool) {
 	for t := 0; t+k.N <= len(k.Target); t++ {
 		for q := 0; q+k.N <= len(query); q++ {
 			if k.Self && q <= t {
+				continue
+			}
+			if k.Near > 0 && (q < k.Near-1-k.N || q > k.Near-1+k.N) {
 				continue
 			}
 			d := 0
@@ -238,7 +244,7 @@ func deBruijn(alpha string, order int) string {
 
 func run(c *enum.Ctx) {
 	kmerindex.MinKmerLen = 2
-	c.Rule("parameters: every (k,n,e,offset) with k in {2,3,4}, n in k+2..8 (space A) / {9,12,16} with k=4 (space B), e in {0,1,2}, offset in max(e,1)..e+3 (space B also 8) and positive threshold n+1-k(e+1); space A: 6 fixed targets of length 8..12 x every query over {a,c,g,t} of length n..6 (thorough 7), plus self comparison of every sequence of length <=7 (thorough 8); space B (tube geometry): a 40-letter target over {a,c,g} with all 4-mers distinct, queries of length 100 (all 't' background, sharing no k-mer with the target) so that the circular tube array is recycled, a copy of target[t0:t0+n] planted at EVERY (t0,q0) with every substitution pattern of <=e positions (quick: exact, all single positions, pairs at 3 spacings); space F (reuse): the space-B plants filtered by a Filter value that has already filtered a query carrying a copy of the first k, k+1, n-1 or n letters of the same window 0, +3, -3, +offset positions away or in the same slot of the tube ring one or two turns later (thorough: at every position); space G (a failed call before): as F, but the earlier call is given a sorter that refuses its first hit - the full copy of the window at the start of its query - and so returns early while the tubes of a partial copy, g positions later at the place of the later plant, are open; space D: k in {2,3}, n in {k,k+1,k+3}, e<=1, offset in {1,2,3,6} on targets of 17/30 and queries of 50/83 letters (query much longer than the target, threshold as low as 1) with a plant at every (t0,q0); space E: a plant at every (t0,q0) plus one stray copy of a word from the first e+1 target positions at every other query position (two-site geometry of the tube ring); space C: PALS-like parameters (k=6,n=30,e=2,offset=16; thorough also (8,50,4,36), (6,30,2,3), (5,20,1,8)) on targets of 90..200 and queries of 260..420 letters with a plant at every (t0,q0) (quick: thinned away from the ends) and substitutions at every third position; oracle: brute force over every pair of length-n windows with Hamming distance <=e (self: q0>t0): some pushed filter.Hit h must satisfy -h.Diagonal <= q0-t0 <= -h.Diagonal+offset+e-1 and [h.From,h.To) must meet [q0,q0+n); hits are read back through a real in-memory morass; non-trivial = runs with at least one epsilon-match")
+	c.Rule("parameters: every (k,n,e,offset) with k in {2,3,4}, n in k+2..8 (space A) / {9,12,16} with k=4 (space B), e in {0,1,2}, offset in max(e,1)..e+3 (space B also 8) and positive threshold n+1-k(e+1); space A: 6 fixed targets of length 8..12 x every query over {a,c,g,t} of length n..6 (thorough 7), plus self comparison of every sequence of length <=7 (thorough 8); space B (tube geometry): a 40-letter target over {a,c,g} with all 4-mers distinct, queries of length 100 (all 't' background, sharing no k-mer with the target) so that the circular tube array is recycled, a copy of target[t0:t0+n] planted at EVERY (t0,q0) with every substitution pattern of <=e positions (quick: exact, all single positions, pairs at 3 spacings); space F (reuse): the space-B plants filtered by a Filter value that has already filtered a query carrying a copy of the first k, k+1, n-1 or n letters of the same window 0, +3, -3, +offset positions away or in the same slot of the tube ring one or two turns later (thorough: at every position); space H (long queries): queries of 2^j+40 letters (j=8..11, thorough 12) with a plant at every position around every power of two, exact and with a substitution at either end, the oracle restricted to the windows near the plant; space G (a failed call before): as F, but the earlier call is given a sorter that refuses its first hit - the full copy of the window at the start of its query - and so returns early while the tubes of a partial copy, g positions later at the place of the later plant, are open; space D: k in {2,3}, n in {k,k+1,k+3}, e<=1, offset in {1,2,3,6} on targets of 17/30 and queries of 50/83 letters (query much longer than the target, threshold as low as 1) with a plant at every (t0,q0); space E: a plant at every (t0,q0) plus one stray copy of a word from the first e+1 target positions at every other query position (two-site geometry of the tube ring); space C: PALS-like parameters (k=6,n=30,e=2,offset=16; thorough also (8,50,4,36), (6,30,2,3), (5,20,1,8)) on targets of 90..200 and queries of 260..420 letters with a plant at every (t0,q0) (quick: thinned away from the ends) and substitutions at every third position; oracle: brute force over every pair of length-n windows with Hamming distance <=e (self: q0>t0): some pushed filter.Hit h must satisfy -h.Diagonal <= q0-t0 <= -h.Diagonal+offset+e-1 and [h.From,h.To) must meet [q0,q0+n); hits are read back through a real in-memory morass; non-trivial = runs with at least one epsilon-match")
 	c.Assume("kmerindex.MinKmerLen is lowered to 2 by the harness so that small k keep the spaces small", "sequences are over a,c,g,t only")
 	work := os.Getenv("VERIF_WORK")
 	if work == "" {
@@ -472,6 +478,47 @@ func run(c *enum.Ctx) {
 				c.Eval()
 				if check(c, r, k) {
 					nt.AddH(enum.Hash64(enum.J(k)))
+				}
+			}
+		}
+		c.Merge(nt)
+	})
+	// space H (the size ladder of the query): queries of 2^j+40 letters (j = 8..11, thorough 12), a plant
+	// at every query position from n+3 before a power of two to 3 behind it, exact and with one substitution
+	// at either end (the k-mers that straddle the power of two are the ones that count)
+	enum.Parallel(len(jobs), func(ji int) {
+		j := jobs[ji]
+		p := j.p
+		if j.t0%7 != 0 || p.Off == 8 {
+			return
+		}
+		r := newRunner(filepath.Join(work))
+		r.slot = ji
+		defer r.close()
+		nt := enum.NontrivialSet{}
+		topJ := 11
+		if !c.Quick {
+			topJ = 12
+		}
+		for jx := 8; jx <= topJ; jx++ {
+			ql := 1<<uint(jx) + 40
+			bg := strings.Repeat("t", ql)
+			for b := 256; b <= ql; b *= 2 {
+				for q0 := b - p.N - 3; q0 <= b+3 && q0+p.N <= ql; q0++ {
+					for _, sub := range []int{-1, 0, p.N - 1} {
+						if sub >= 0 && p.E == 0 {
+							continue
+						}
+						w := []byte(target[j.t0 : j.t0+p.N])
+						if sub >= 0 {
+							w[sub] = 't'
+						}
+						k := kase{K: p.K, N: p.N, E: p.E, Off: p.Off, Target: target, Query: bg[:q0] + string(w) + bg[q0+p.N:], Near: q0 + 1}
+						c.Eval()
+						if check(c, r, k) {
+							nt.AddH(enum.Hash64(fmt.Sprint("H", p, j.t0, ql, q0, sub)))
+						}
+					}
 				}
 			}
 		}
